@@ -13,12 +13,13 @@ REQUIRED = ["precession_equatorial", "precession_ecliptical", "precession_newcom
 THEOREMS = ["C06_equ_closed_form", "C06_equ_rotation", "C06_equ_identity", "C06_equ_isometry",
             "C06_rotation_facts", "C06_ecl_closed_form", "C06_ecl_rotation", "C06_ecl_identity",
             "C06_ecl_isometry", "C06_newcomb_closed_form", "C06_newcomb_rotation", "C06_newcomb_identity",
-            "C06_obliquity", "C06_p_motion_closed_form", "C06_motion_in_space_closed_form", "C06_orbital_closed_form", "C06_orbital_zero_branch"]
+            "C06_obliquity", "C06_p_motion_closed_form", "C06_motion_in_space_closed_form", "C06_orbital_closed_form", "C06_orbital_zero_branch",
+            "C06_equ_there_and_back", "C06_ecl_there_and_back"]
 PROOF_TIMEOUT = {"quick": 1500, "thorough": 3000}
 EXHAUSTIVE = False
 MANIFEST = {
     "category": "proof",
-    "text": "T4 (ideal real arithmetic): the regenerated bodies of precession_equatorial / precession_newcomb / precession_ecliptical / mean_obliquity are evaluated symbolically for ALL real epochs, coordinates (every declination, poles included) and proper motions to exact closed forms (every constant and sign pinned; polynomials proved equal to Meeus' by field), and the closed forms are proved to be the rotation Rz.Ry.Rz (Rz.Rx.Rz) of the proper-motion-corrected unit vector: identity at zero interval, dot products preserved exactly, invertible, stored angles in (-360,360). Numeric clauses (there-and-back, route agreement, Newcomb vs FK5, orbital round trip) are not identities and are searched on the implementation; bit-exact correspondence model vs implementation every run.",
+    "text": "T4 (ideal real arithmetic): the regenerated bodies of precession_equatorial / precession_newcomb / precession_ecliptical / mean_obliquity are evaluated symbolically for ALL real epochs, coordinates (every declination, poles included) and proper motions to exact closed forms (every constant and sign pinned; polynomials proved equal to Meeus' by field), and the closed forms are proved to be the rotation Rz.Ry.Rz (Rz.Rx.Rz) of the proper-motion-corrected unit vector: identity at zero interval, dot products preserved exactly, invertible, stored angles in (-360,360). There-and-back: equatorial is EXACTLY the identity (the IAU 1976 reverse-trip polynomials are the exact negatives of the forward ones), ecliptical within 3.44e-7 degree (< the property's 1e-6) for epochs within 5 centuries of J2000 (mismatch polynomials bounded by interval, commutator of rotations, chord <= arc). Remaining numeric clauses (route agreement, Newcomb vs FK5, orbital round trip) are not identities and are searched on the implementation; bit-exact correspondence model vs implementation every run.",
     "technique": "symbolic evaluation of the generated model in the real-number instance (call-by-value evaluator with characterisation lemmas for Angle(0,0,s), reduce_deg, Angle(x, radians=True)) + field + rotation algebra on unit vectors (atan2 lemmas, congruence mod 360) + bit-exact differential correspondence + property oracle on the sphere",
     "design_ref": "8/C06",
 }
@@ -38,7 +39,7 @@ CLAUSES = {
     "Newcomb (FK4) variant: same rotation type with Newcomb's polynomials, total (no exception)": "proved [ideal, C06_newcomb_closed_form + C06_newcomb_rotation]",
     "mean obliquity = 23d26'21.448'' + Laskar polynomial": "proved [ideal, C06_obliquity]",
     "there and back returns the start (equatorial 1e-9 deg, ecliptical 1e-6 deg within 5 centuries of J2000)":
-        "unproved (searched): the truncated polynomials for (T+t, -t) are not the exact inverse of those for (T, t); a bound needs a 2-D interval proof with cancellation at 1e-11",
+        "proved [ideal]: equatorial EXACTLY the start for all epochs and declinations (C06_equ_there_and_back: the reverse-trip polynomials zeta(T+t,-t), z(T+t,-t), theta(T+t,-t) are the exact negatives -z, -zeta, -theta, so the property's 1e-9 deg is purely a binary64 rounding budget; measured 9e-14 deg); ecliptical within a chord of 6e-9 = 3.44e-7 deg < 1e-6 deg for both epochs within 5 centuries of J2000 (C06_ecl_there_and_back: mismatch polynomials bounded by interval, commutator bound 2|eta'||dPi| + |eta'+eta|, chord <= arc); binary64 rounding of both: searched with the property's tolerances",
     "equatorial route agrees with the ecliptical route through the mean obliquity of each epoch to 1e-4 deg":
         "unproved (searched): three separately fitted polynomial sets, agreement is numerical",
     "Newcomb within 0.005 deg of FK5 for 1800-2100": "unproved (searched): numerical closeness of two polynomial sets",
@@ -50,7 +51,7 @@ CLAUSES = {
 
 def proof_files(tier):
     return ["C06_angle.v", "C06_tac.v", "C06_jde.v", "C06_equ.v", "C06_ecl.v", "C06_obl.v", "C06_aux.v", "C06_orb.v",
-            "C06_main.v", "C06.v"]
+            "C06_main.v", "C06_back.v", "C06.v"]
 
 
 # ----------------------------------------------------------------------------- generators
